@@ -13,6 +13,9 @@ open CtyModel.Msgpack
 * `d16.numclass <num>` → `Msgpack.textRouteClass` (which numbers the text-route theorems cover)
 * `d16.unmarshaln <item> <ty> ((x<raw> x<nfc>)*)` → as `mp.unmarshal`, with Unicode normalisation given as a
   table computed by the real `norm.NFC` (strings not in the table are fixed points)
+* `d16.shape <value> <ty> <oracle>` → for a conforming value: do the hypotheses of `C16.marshal_total_partial`
+  hold (`wf`, `shapeP`) and is the model's answer a value or an error (the harness expects `true` three times for
+  every value built through cty's constructors); `unmodelled` for a non-conforming one
 * `d16.marshalc <value> <ty> <oracle>` → `Msgpack.marshalC`: `Marshal` including its `convert.Convert` path, in
   the environment and with the fuel of the C08 driver; `d16.marshalc-sets`: the same, every array printed with
   its members sorted (a conversion that builds a set orders its members by the real hash) -/
@@ -62,6 +65,17 @@ def handleD16 : Handler := fun op args =>
     let tbl ← decOracle o
     pure (if !Convert.stringsModelled v.v then "unmodelled"
           else resTag (fun it => toString (itemToSexp it)) (marshalC (extOf tbl) Convert.driverEnv 64 v t))
+  | "d16.shape", [v, t, o] => do
+    let v ← Value.ofSexp v
+    let t ← Ty.ofSexp t
+    let tbl ← decOracle o
+    -- the hypotheses of `C16.marshal_total_partial` on a conforming value, and its conclusion for this instance
+    pure (if Ty.conformErrs t v.ty != 0 then "unmodelled"
+          else
+            let total := match marshal (extOf tbl) v t with
+              | .ok _ | .err _ => true
+              | _ => false
+            s!"wf:{t.wf && v.ty.wf} shape:{shapeP v.ty v.v} ok-or-err:{total}")
   | "d16.marshalc-sets", [v, t, o] => do
     let v ← Value.ofSexp v
     let t ← Ty.ofSexp t
